@@ -132,6 +132,20 @@ func msgFor(typ uint64, mask int, vi int) gen.Msg {
 
 func valueClass(vi int) string { return fmt.Sprintf("v%d", vi%len(c09Vals)) }
 
+// decodeFromScratch decodes a private copy of raw and then overwrites that copy.
+// It is used for the messages without bytes fields (timestamps; metadata, whose
+// only field is a string, and Go strings are immutable): what was decoded there
+// is a value of its own. The Data message's bytes field may legitimately be a
+// view of the input, as with every go-ipld-prime codec.
+func decodeFromScratch[T any](raw []byte, dec func([]byte) (T, error)) (T, error) {
+	buf := append(make([]byte, 0, len(raw)+8), raw...)
+	v, err := dec(buf)
+	for i := range buf {
+		buf[i] ^= 0xff
+	}
+	return v, err
+}
+
 func TestC09(t *testing.T) {
 	r := mon.Start(t, "C09")
 	defer r.Close()
@@ -446,7 +460,7 @@ func TestC09(t *testing.T) {
 					}
 					var d data.UnixTime
 					var err error
-					if !c.Guard("DecodeUnixTime", func() { d, err = data.DecodeUnixTime(raw) }) {
+					if !c.Guard("DecodeUnixTime", func() { d, err = decodeFromScratch(raw, data.DecodeUnixTime) }) {
 						continue
 					}
 					c.Count("decodes_compared", 1)
@@ -481,7 +495,7 @@ func TestC09(t *testing.T) {
 				}
 				var d data.UnixFSMetadata
 				var err error
-				if !c.Guard("DecodeUnixFSMetadata", func() { d, err = data.DecodeUnixFSMetadata(raw) }) {
+				if !c.Guard("DecodeUnixFSMetadata", func() { d, err = decodeFromScratch(raw, data.DecodeUnixFSMetadata) }) {
 					continue
 				}
 				c.Count("decodes_compared", 1)
